@@ -380,6 +380,23 @@ theorem contentM_step {N : Str → Prop} {sh : Shape} {dim : Nat} {st st' : St} 
     | partition _ _ _ _ _ _ => simp [contentM, gErr] at h
     | chart _ _ => simp [contentM, gErr] at h
     | chartItem => simp [contentM, gErr] at h
+    | bezier _ _ _ _ _ => simp [contentM, gErr] at h
+    | bezierPoints size read acc =>
+      simp only [contentM] at h
+      repeat' split at h
+      all_goals first
+        | (simp [cErr] at h; done)
+        | (simp only [Except.ok.injEq] at h; subst h
+           exact ⟨rfl, rfl, rfl, stackInv2_replace h4 trivial (fun _ _ _ _ => trivial)
+             (fun _ _ _ _ _ _ _ _ _ _ => trivial), hn⟩)
+    | bezierParams size read acc =>
+      simp only [contentM] at h
+      repeat' split at h
+      all_goals first
+        | (simp [cErr] at h; done)
+        | (simp only [Except.ok.injEq] at h; subst h
+           exact ⟨rfl, rfl, rfl, stackInv2_replace h4 trivial (fun _ _ _ _ => trivial)
+             (fun _ _ _ _ _ _ _ _ _ _ => trivial), hn⟩)
     | verts count acc =>
       obtain ⟨v, hv, hc, rfl⟩ := contentM_verts rfl h
       exact ⟨rfl, rfl, rfl, stackInv2_replace h4 trivial (fun _ _ _ _ => trivial)
@@ -555,6 +572,45 @@ theorem closeTop_step {N : Str → Prop} {sh : Shape} {dim : Nat} {st st' : St} 
         simp [closeTop] at h; subst h
         exact ⟨rfl, rfl, rfl, stackInv2_tail h4,
           ⟨hn.mesh64, hn.meshZB, hn.parts, hn.partsChart, hn.partsZB, hn.partsSorted, hn.partitions⟩⟩
+    | bezier sz cl o segs params =>
+      cases rest with
+      | nil => simp [closeTop, gErr] at h
+      | cons g tl =>
+        cases g with
+        | chart name c =>
+          simp only [closeTop, Except.ok.injEq] at h
+          subst h
+          exact ⟨rfl, rfl, rfl, stackInv2_replace (stackInv2_tail h4) trivial (fun _ _ _ _ => trivial)
+            (fun _ _ _ _ _ _ _ _ _ _ => trivial), hn⟩
+        | _ => simp [closeTop, gErr] at h
+    | bezierPoints size read acc =>
+      cases rest with
+      | nil => simp [closeTop, gErr] at h
+      | cons g tl =>
+        cases g with
+        | bezier sz cl o segs params =>
+          simp only [closeTop] at h
+          split at h
+          · simp [gErr] at h
+          · simp only [Except.ok.injEq] at h
+            subst h
+            exact ⟨rfl, rfl, rfl, stackInv2_replace (stackInv2_tail h4) trivial (fun _ _ _ _ => trivial)
+              (fun _ _ _ _ _ _ _ _ _ _ => trivial), hn⟩
+        | _ => simp [closeTop, gErr] at h
+    | bezierParams size read acc =>
+      cases rest with
+      | nil => simp [closeTop, gErr] at h
+      | cons g tl =>
+        cases g with
+        | bezier sz cl o segs params =>
+          simp only [closeTop] at h
+          split at h
+          · simp [gErr] at h
+          · simp only [Except.ok.injEq] at h
+            subst h
+            exact ⟨rfl, rfl, rfl, stackInv2_replace (stackInv2_tail h4) trivial (fun _ _ _ _ => trivial)
+              (fun _ _ _ _ _ _ _ _ _ _ => trivial), hn⟩
+        | _ => simp [closeTop, gErr] at h
     | mesh sizes v topo =>
       simp only [closeTop] at h
       split at h
@@ -1061,6 +1117,19 @@ theorem openM_step {N : Str → Prop} {sh : Shape} {dim : Nat} {st st' : St} {li
                       ne31 := h5 }
               · simp [gErr] at h
     | chartItem => simp [openM, gErr] at h
+    | bezierPoints _ _ _ => simp [openM, gErr] at h
+    | bezierParams _ _ _ => simp [openM, gErr] at h
+    | bezier sz cl o segs params =>
+      have hpush : ∀ f, frameOk2 N shape d deduct f →
+          stackInv2 N shape d deduct (f :: Frame.bezier sz cl o segs params :: rest) :=
+        fun f hf => stackInv2_push h4 hf (fun _ _ hh => by cases hh) (fun _ _ _ _ _ _ _ _ hh => by cases hh)
+      simp only [openM] at h
+      repeat' split at h
+      all_goals first
+        | (simp [gErr] at h; done)
+        | (cases h; done)
+        | exact push_open_ok h ⟨hpush _ trivial, hn⟩ rfl rfl rfl
+        | exact push_open h ⟨hpush _ trivial, hn⟩ rfl rfl rfl
     | chart name c =>
       have hrep : ∀ c', stackInv2 N shape d deduct (Frame.chart name c' :: rest) := fun c' =>
         stackInv2_replace h4 trivial (fun _ _ _ _ => trivial) (fun _ _ _ _ _ _ _ _ _ _ => trivial)
@@ -1453,6 +1522,16 @@ theorem openM_inv3 {st st' : St} {line : Nat} {m : Markup} (hI : Inv3 st) (h : o
     | attr _ _ _ _ => simp [openM, gErr] at h
     | patch _ _ _ _ _ => simp [openM, gErr] at h
     | chartItem => simp [openM, gErr] at h
+    | bezierPoints _ _ _ => simp [openM, gErr] at h
+    | bezierParams _ _ _ => simp [openM, gErr] at h
+    | bezier sz cl o segs params =>
+      have hr : rootBottom rest := by simpa [Inv3, rootBottom] using hI.1
+      simp only [openM] at h
+      repeat' split at h
+      all_goals first
+        | (simp [gErr] at h; done)
+        | (cases h; done)
+        | (first | (refine push_inv3 ?_ h; exact Inv3_of hI (by simpa [rootBottom] using hr) (by simp [openPart]) rfl rfl) | (simp only [Except.ok.injEq] at h; subst h; exact Inv3_of hI (by simpa [rootBottom] using hr) (by simp [openPart]) rfl rfl) | (refine closeTop_inv3 ?_ h; exact Inv3_of hI (by simpa [rootBottom] using hr) (by simp [openPart]) rfl rfl))
     | dummy =>
       simp only [openM] at h
       (first | (refine push_inv3 ?_ h; exact Inv3_of hI (by simpa [Inv3, rootBottom] using hI.1) (by simp [openPart]) rfl rfl) | (simp only [Except.ok.injEq] at h; subst h; exact Inv3_of hI (by simpa [Inv3, rootBottom] using hI.1) (by simp [openPart]) rfl rfl) | (refine closeTop_inv3 ?_ h; exact Inv3_of hI (by simpa [Inv3, rootBottom] using hI.1) (by simp [openPart]) rfl rfl))
